@@ -19,6 +19,7 @@ type tvT struct {
 	gt   types.Type // Go type; nil for spec-level values (see sort)
 	sort string     // SMT sort when gt == nil ("Int", "Bool", or raw)
 	lit  *big.Int   // integer literal value (untyped)
+	addr string     // heap reference of an addressable array variable (for a[:])
 }
 
 type TEnv struct {
@@ -180,6 +181,14 @@ func (g *Gen) trans(e *Expr, env *TEnv) tvT {
 		return g.transIdx(e, env)
 	case "slice":
 		s := g.trans(e.Args[0], env)
+		if s.gt != nil {
+			if at, ok := s.gt.Underlying().(*types.Array); ok {
+				if s.addr == "" {
+					g.fail("cannot slice array value without an address: %s : %s", e.Args[0].String(), s.t)
+				}
+				s = tvT{t: fmt.Sprintf("(mk-slice %s %s %s %s)", s.addr, g.idx(0), g.idx(at.Len()), g.idx(at.Len())), gt: types.NewSlice(at.Elem())}
+			}
+		}
 		lo := g.idx(0)
 		hi := fmt.Sprintf("(len %s)", s.t)
 		if e.Args[1] != nil {
@@ -248,6 +257,15 @@ func (g *Gen) trans(e *Expr, env *TEnv) tvT {
 		body := g.transBool(e.Args[0], env2)
 		if env2.patTerm != "" {
 			return boolTv(fmt.Sprintf("(%s (%s) (! %s :pattern (%s)))", e.Op, strings.Join(bs, " "), body, env2.patTerm))
+		}
+		if os.Getenv("GOVC_NOPATTERN") == "" {
+			var names []string
+			for _, b := range e.Vars {
+				names = append(names, "q_"+b.Name)
+			}
+			if pat := choosePattern(body, names); pat != "" {
+				return boolTv(fmt.Sprintf("(%s (%s) (! %s :pattern (%s)))", e.Op, strings.Join(bs, " "), body, pat))
+			}
 		}
 		return boolTv(fmt.Sprintf("(%s (%s) %s)", e.Op, strings.Join(bs, " "), body))
 	}
@@ -519,10 +537,10 @@ func (g *Gen) transIdx(e *Expr, env *TEnv) tvT {
 			env.patTerm = t
 			return g.elemTv(t, u.Elem())
 		}
-		return g.elemTv(fmt.Sprintf("(select (select %s (base %s)) %s)", env.heap(c), x.t, g.addIdx("(off "+x.t+")", i)), u.Elem())
+		return g.elemTv(fmt.Sprintf("(select (select %s (base %s)) %s)", env.heap(c), x.t, g.elemIdx("(off "+x.t+")", i)), u.Elem())
 	case *types.Basic: // string
 		c, _ := g.memComp(types.Typ[types.Uint8])
-		return tvT{t: fmt.Sprintf("(select (select %s (base %s)) %s)", env.heap(c), x.t, g.addIdx("(off "+x.t+")", i)), gt: types.Typ[types.Uint8]}
+		return tvT{t: fmt.Sprintf("(select (select %s (base %s)) %s)", env.heap(c), x.t, g.elemIdx("(off "+x.t+")", i)), gt: types.Typ[types.Uint8]}
 	case *types.Array:
 		return g.elemTv(fmt.Sprintf("(select %s %s)", x.t, i), u.Elem())
 	case *types.Pointer:
@@ -815,6 +833,24 @@ func (g *Gen) transCall(e *Expr, env *TEnv) tvT {
 			g.fail("abs in bv mode")
 		}
 		return tvT{t: fmt.Sprintf("(ite (< %s 0) (- %s) %s)", a.t, a.t, a.t), gt: mathInt}
+	case "has":
+		// has(m, k): key k is in map m
+		m := g.trans(args[0], env)
+		k := g.trans(args[1], env)
+		mt, ok := m.gt.Underlying().(*types.Map)
+		if !ok {
+			g.fail("has() of non-map")
+		}
+		_, in, _ := g.mapCompNames(m.gt)
+		kt := k.t
+		if g.bv && k.lit != nil {
+			kt = g.numBig(k.lit, mt.Key())
+		}
+		return boolTv(fmt.Sprintf("(and (not (= %s 0)) (select (select %s %s) %s))", m.t, env.heap(in), m.t, g.mapKey(kt, mt)))
+	case "strkey":
+		// strkey(s): the content identity of a string (what map lookups and == compare)
+		s := g.trans(args[0], env)
+		return tvT{t: g.mapKey(s.t, types.NewMap(types.Typ[types.String], types.Typ[types.Bool])), sort: "Int"}
 	case "mem":
 		// mem(s): the backing array of slice s (Array Idx Elem), for equality statements
 		x := g.trans(args[0], env)
